@@ -113,9 +113,12 @@ DFinish(valRet, eqB, sized) ==
 \* C04/C11 through the shipped downloader (a black box): what it requested from the server and what it left.
 \* X = chunks whose extents were requested (body ranges must be unions of whole chunk extents), d = disk facts
 \* before the run, usable = available from the local source.  full = the server ignores Range altogether and
-\* answers every request with the whole file: then only the result counts (what is transferred is the server's choice)
-DToolRun(status, eqB, X, wholeChunks, d, usable, sized, full) ==
+\* answers every request with the whole file: then only the result counts (what is transferred is the server's choice).
+\* must = nothing stands in the way of this run (a well-behaved server, possibly with a limit on ranges per request, no
+\* injected fault, not killed): C04/C11 then promise that it terminates successfully with B, whatever the target held
+DToolRun(status, eqB, X, wholeChunks, d, usable, sized, full, must) ==
     /\ status = 0 => eqB                                                   \* success => identical to B
+    /\ must => (status = 0 /\ eqB)
     /\ ~full =>
         /\ wholeChunks
         /\ \A k \in 1..Len(X) : ~d[X[k]] /\ ~usable[X[k]]                      \* nothing present or locally available is fetched
